@@ -59,6 +59,8 @@ Edits == <<
   [r |-> "secret-one-source", f |-> Nest(<<"secrets", "s">>, M2("driver", S("custom"), "file", Tagged(Null, "reset")))],
   [r |-> "config-one-source", f |-> Nest(<<"configs", "c">>, M1("file", Tagged(Null, "reset")))],
   [r |-> "config-one-source", f |-> Nest(<<"configs", "c">>, M1("content", S("x")))],
+  [r |-> "config-one-source", f |-> Nest(<<"configs", "c">>, M2("external", B(FALSE), "file", Tagged(Null, "reset")))],
+  [r |-> "secret-one-source", f |-> Nest(<<"secrets", "s">>, M2("external", B(FALSE), "file", Tagged(Null, "reset")))],
   [r |-> "acyclic", f |-> Nest(<<"services", "b">>, M1("depends_on", M1("a", Dep)))],
   [r |-> "acyclic", f |-> SvcA(M1("depends_on", M1("a", Dep)))],
   [r |-> "acyclic", f |-> Nest(<<"services", "b">>, M1("links", Sq1(S("a"))))],
